@@ -111,6 +111,7 @@ def gen_config(seed, tier='quick', family=None):
                              and wl.random() < 0.35) else 1,
         'measure_initial': wl.random() > 0.15,
         'save_stats': wl.random() > 0.2,
+        'save_psi': wl.random() > 0.12,  # False: psi only inside resume_data (save_resume_data=True)
     }
     if fam == 'vumps' and cfg['ext'] == '.h5':
         # Observed on the pinned tree: an HDF5 results file holding a UniformMPS (VUMPS checkpoints) does not load
@@ -185,6 +186,9 @@ def build_params(cfg, out_name='results'):
         params['measure_initial'] = False
     if is_gs and not cfg.get('save_stats', True):
         params['save_stats'] = False
+    if not cfg.get('save_psi', True):
+        params['save_psi'] = False
+        params['save_resume_data'] = True
     trunc = {'chi_max': cfg['chi'], 'svd_min': 1.0e-10}
     if is_gs:
         ap = {'trunc_params': trunc, 'max_sweeps': cfg['max_sweeps'], 'N_sweeps_check': cfg['N_sweeps_check'],
